@@ -13,6 +13,8 @@ mod gen;
 mod props;
 mod rng;
 mod scenario;
+#[path = "../../sim/fidelity.rs"]
+mod fidelity;
 
 use crate::core::{drive, replay, Tier};
 use std::io::Write;
@@ -39,6 +41,18 @@ fn main() {
         None => Box::new(std::io::stdout()),
     };
     exec::install_panic_hook();
+    if pos.first().map(|s| s.as_str()) == Some("fidelity") {
+        // split-tree log of the simulated pool, width 1, sequential schedule
+        for inside in [false, true] {
+            rayon_core::sim::begin(rayon_core::sim::Config { width: 1, policy: rayon_core::sim::Policy::Sequential, seed: 0, replay: None, inside });
+            let log = fidelity::fidelity_log();
+            let _ = rayon_core::sim::end();
+            let _ = writeln!(out, "== called from {} the pool", if inside { "inside" } else { "outside" });
+            let _ = write!(out, "{}", log);
+        }
+        let _ = out.flush();
+        std::process::exit(0);
+    }
     if pos.len() < 2 {
         eprintln!("usage: nsim <ID> quick|thorough | nsim replay <file>");
         std::process::exit(2);
